@@ -145,6 +145,23 @@ def handbuilt_cases(bases):
     return out
 
 
+def empty_object_cases(bases):
+    """authored objects whose CONTENT is that of an empty slot (an all-zero location without a name, an all-zero
+    unit-property set): the rich layer gives them a slot and points the trigger at it, but what it writes there is
+    indistinguishable from an unused slot"""
+    out = []
+    for label, base in bases:
+        for idx in (None, 7):
+            out.append((f"{label}:all-zero-location-{idx}", base,
+                        {"pool": {"locs": [[0, 0, 0, 0, None, idx, [True] * 6]], "switches": [], "cuwps": []},
+                         "ops": [_trigs(_loc_acts([0]))]}))
+        out.append((f"{label}:all-zero-cuwp", base,
+                    {"pool": {"locs": [[1, 1, 2, 2, None, None, [True] * 6]], "switches": [],
+                              "cuwps": [[0, 0, 0, 0, 0, [False] * 5, [False] * 6, [False] * 7, False, 0, None]]},
+                     "ops": [_trigs(_cuwp_acts([0]))]}))
+    return out
+
+
 def run(ck: vlib.Check):
     n = 80 if ck.tier == "quick" else 3000
     ck.rule = ("authored scenarios pushed to the format's limits on valid bases: 17..100 conditions / 65..100 actions, "
@@ -204,6 +221,27 @@ def run(ck: vlib.Check):
                          {"kind": "invalid", "label": label, "base_hex": base.hex(), "spec": spec, "problems": problems[:5]}, True)
         else:
             outcomes["valid-output"] += 1
+    known, _ = vlib.load_known_findings(PROP)
+    known_keys = {f["key"]: f["text"] for f in known}
+    seen = False
+    for label, base, spec in empty_object_cases(fixed[:2]):
+        r = A.run_impl(base, spec)
+        ck.evaluations += 1
+        ck.note_case(label)
+        hows["empty-content"] = hows.get("empty-content", 0) + 1
+        if r[0] == 0:
+            outcomes["raises"] += 1
+            continue
+        problems = validator.validate(bytes(r[1]))
+        if problems and "content-empty-object-referenced" in known_keys and all("is empty" in p or "disagrees with unit-property slot" in p for p in problems):
+            seen = True
+        elif problems:
+            ck.violation(f"{label}: the emitted CHK is not structurally valid: {problems[0]}",
+                         {"kind": "invalid", "label": label, "base_hex": base.hex(), "spec": spec, "problems": problems[:5]}, True)
+        else:
+            outcomes["valid-output"] += 1
+    if seen:
+        ck.known("key=content-empty-object-referenced " + known_keys["content-empty-object-referenced"])
     ck.extra["degenerations"] = hows
     ck.extra["outcomes"] = outcomes
     if drv_ok:
